@@ -116,15 +116,17 @@ class Device(BaseDevice):
     if self.cbounds:
       for cbound in self.cbounds:
         l, h, s, e = cbound
+        mask = np.zeros(len(self))
+        mask[s:e] = 1
         constraints += [{
           'type': 'ineq',
-          'fun': lambda s: s.dot(np.ones(len(self))) - l,
-          'jac': lambda s: np.ones(len(self))
+          'fun': lambda s, l=l, mask=mask: s.dot(mask) - l,
+          'jac': lambda s, mask=mask: mask.copy()
         },
         {
           'type': 'ineq',
-          'fun': lambda s: h - s.dot(np.ones(len(self))),
-          'jac': lambda s: -1*np.ones(len(self))
+          'fun': lambda s, h=h, mask=mask: h - s.dot(mask),
+          'jac': lambda s, mask=mask: -1*mask
         }]
     return constraints
 
